@@ -378,6 +378,71 @@ theorem ridgeDistanceAndSpreading_noInt (sph : Bool) (r : RidgeSpec R) (hw : r.W
   refine NoInt.bind (ridgeSegments_noInt sph nat0 _ _ ridge vs sub00 hvl _ _ _) (fun acc _ => ?_)
   exact NoInt.pure _
 
+/-- the segment loop with per-point subducting velocities: one value per ridge point -/
+theorem ridgeSegments_noInt_some (sph : Bool) (nat0 : P3 R) (check other : P2 R) (ridge : List (P2 R)) (vels sv : List R)
+    (sub00 : R) (hv : vels.length = ridge.length) (hs : sv.length = ridge.length) (fuel i : Nat) (acc : RidgeAcc R) :
+    NoInt (ridgeSegments sph nat0 check other ridge vels (some sv) sub00 fuel i acc) := by
+  induction fuel generalizing i acc with
+  | zero => exact NoInt.ok _
+  | succ fuel ih =>
+    unfold ridgeSegments
+    split
+    · repeat (first | exact ih _ _ | noint_step)
+    · exact NoInt.ok _
+
+/-- the ridge search with arbitrary subducting-velocity rows and migration times (slab `mass conserving`): a first subducting velocity
+exists, and per-point rows (first row longer than 1) come one per ridge, one value per ridge point, with a migration time per ridge -/
+theorem ridgeDistanceAndSpreading_noInt_general (sph : Bool) (r : RidgeSpec R) (hw : r.WellFormed) (nat0 : P3 R)
+    (subVel : List (List R)) (migr : List R)
+    (h0 : ∃ sv0 v, subVel[0]? = some sv0 ∧ sv0[0]? = some v)
+    (hpp : (∃ sv0, subVel[0]? = some sv0 ∧ 1 < sv0.length) →
+      subVel.length = r.ridges.length ∧ r.ridges.length ≤ migr.length ∧
+      ∀ (i : Nat) (rd : List (P2 R)) (sv : List R), r.ridges[i]? = some rd → subVel[i]? = some sv → sv.length = rd.length) :
+    NoInt (ridgeDistanceAndSpreading sph r.ridges r.vels nat0 subVel migr) := by
+  obtain ⟨hpos, hne, hlen, hvs⟩ := hw
+  obtain ⟨sv0', v0, hs0, hv0⟩ := h0
+  have hsl : 0 < subVel.length := (List.getElem?_eq_some_iff.1 hs0).1
+  have hvl0 : 0 < sv0'.length := (List.getElem?_eq_some_iff.1 hv0).1
+  unfold ridgeDistanceAndSpreading
+  refine NoInt.bind (idx_noInt _ _ hpos) (fun r0 _ => ?_)
+  refine NoInt.bind (x := (if r0.length > 1 then relevantRidge r.ridges _ r.ridges.length 0 else .ok 0)) ?_ (fun rel hrel => ?_)
+  · split
+    · obtain ⟨k, hk, _⟩ := relevantRidge_ok r.ridges hne (surfacePoint sph nat0) r.ridges.length 0 hpos
+      rw [hk]; exact NoInt.ok _
+    · exact NoInt.ok _
+  have hrel : rel < r.ridges.length := by
+    split at hrel
+    · obtain ⟨k, hk, hk2⟩ := relevantRidge_ok r.ridges hne (surfacePoint sph nat0) r.ridges.length 0 hpos
+      rw [hk] at hrel; cases hrel; exact hk2
+    · cases hrel; exact hpos
+  refine NoInt.bind (idx_noInt _ _ hrel) (fun ridge hridge => ?_)
+  refine NoInt.bind (idx_noInt _ _ (by omega)) (fun vs hvs' => ?_)
+  have hvl : vs.length = ridge.length := hvs rel ridge vs ((idx_ok_iff _ _ _).1 hridge) ((idx_ok_iff _ _ _).1 hvs')
+  refine NoInt.bind (idx_noInt _ _ hsl) (fun sv0 hsv0 => ?_)
+  have hsv : sv0 = sv0' := Option.some.inj (((idx_ok_iff _ _ _).1 hsv0).symm.trans hs0)
+  subst hsv
+  refine NoInt.bind (idx_noInt _ _ hvl0) (fun sub00 _ => ?_)
+  by_cases hp : sv0.length > 1
+  · obtain ⟨hsn, hmg, hall⟩ := hpp ⟨sv0, hs0, hp⟩
+    have hrel' : rel < subVel.length := by omega
+    simp only [hp, if_true, true_and, idx_eq_ok_of_lt subVel rel hrel', Except.map]
+    refine NoInt.bind (NoInt.ok _) (fun svs hsvs => ?_)
+    cases hsvs
+    refine NoInt.bind (x := if ridge.length > 1 then idx migr rel else .ok 0) ?_ (fun mig _ => ?_)
+    · split
+      · exact idx_noInt _ _ (by omega)
+      · exact NoInt.ok _
+    have hsl' : (subVel[rel]).length = ridge.length :=
+      hall rel ridge _ ((idx_ok_iff _ _ _).1 hridge) (List.getElem?_eq_getElem hrel')
+    refine NoInt.bind (ridgeSegments_noInt_some sph nat0 _ _ ridge vs _ sub00 hvl hsl' _ _ _) (fun acc _ => ?_)
+    exact NoInt.pure _
+  · simp only [hp, if_false, false_and]
+    refine NoInt.bind (NoInt.ok _) (fun svs hsvs => ?_)
+    cases hsvs
+    refine NoInt.bind (NoInt.ok _) (fun mig _ => ?_)
+    refine NoInt.bind (ridgeSegments_noInt sph nat0 _ _ ridge vs sub00 hvl _ _ _) (fun acc _ => ?_)
+    exact NoInt.pure _
+
 /-! ### the query monad -/
 
 theorem QNoInt.pure {α : Type} (a : α) : QNoInt (G := G) (Pure.pure a : QM G α) := by
@@ -594,6 +659,49 @@ theorem LineGrains.get_noInt (m : LineGrains R) (hw : m.WellFormed) (isFault : B
     simp only [LineGrains.get]
     split <;> exact NoInt.ok _
 
+/-! ### the slab-only temperature models -/
+
+theorem effectiveTrenchAndPlateAges_noInt (rp : RidgeParams R) (along : R) : NoInt (effectiveTrenchAndPlateAges rp along) := by
+  unfold effectiveTrenchAndPlateAges
+  extract_lets
+  split
+  · split
+    · exact NoInt.ok _
+    · exact NoInt.error (by decide)
+  · exact NoInt.error (by decide)
+
+theorem NoInt.ite {α : Type} {c : Prop} [Decidable c] {x y : Except Err α} (hx : NoInt x) (hy : NoInt y) :
+    NoInt (if c then x else y) := by
+  split <;> assumption
+
+theorem MassConserving.profile_noInt (m : MassConserving R) (hs : m.applySpline = false) (a b c d e f g : R) :
+    NoInt (m.profile a b c d e f g) := by
+  unfold MassConserving.profile
+  simp only [hs, Bool.false_eq_true, if_false]
+  exact NoInt.pure _
+
+theorem MassConserving.get_noInt (m : MassConserving R) (hw : m.WellFormed) (ctx : Ctx R) (depth g : R) (pd : PlaneDist R)
+    (ap : AdditionalParams R) (old : R) : NoInt (m.get ctx depth g pd ap old) := by
+  obtain ⟨hr, h0, hpp, hs⟩ := hw
+  unfold MassConserving.get
+  extract_lets
+  split
+  · refine NoInt.bind (ridgeDistanceAndSpreading_noInt_general _ _ hr _ _ _ h0 hpp) (fun rp _ => ?_)
+    refine NoInt.bind (effectiveTrenchAndPlateAges_noInt _ _) (fun ages _ => ?_)
+    obtain ⟨ageAtTrench, effAge⟩ := ages
+    refine NoInt.bind (NoInt.ite ?_ (NoInt.pure _)) (fun t _ => NoInt.pure _)
+    exact m.profile_noInt hs _ _ _ _ _ _ _
+  · exact NoInt.ok _
+
+theorem SegTemp.get_noInt (m : SegTemp R) (hw : m.WellFormed) (isFault : Bool) (ctx : Ctx R) (depth g : R) (pd : PlaneDist R)
+    (ap : AdditionalParams R) (old : R) : NoInt (m.get isFault ctx depth g pd ap old) := by
+  cases m with
+  | basic b => exact NoInt.ok _
+  | slab s =>
+    cases s with
+    | plateModel p => exact NoInt.ok _
+    | massConserving mc => exact mc.get_noInt hw ctx depth g pd ap old
+
 theorem linePaintAt_noInt (f : LineFeature R) (ctx : Ctx R) (q : Query R) (h : LineHit R)
     (hc : h.cur.WellFormed) (hn : h.next.WellFormed) (p : Req) (blk : List R) (hsz : p.size? = some blk.length) :
     NoInt (linePaintAt f ctx q h p 0 blk) := by
@@ -603,7 +711,10 @@ theorem linePaintAt_noInt (f : LineFeature R) (ctx : Ctx R) (q : Query R) (h : L
   | 1, hsz =>
     simp only [Option.some.injEq] at hsz
     unfold linePaintAt
-    repeat noint_step
+    refine NoInt.bind (idx_noInt _ _ (by omega)) (fun old _ => ?_)
+    refine NoInt.bind (NoInt.foldlM _ _ (fun b m hm => SegTemp.get_noInt m (hc.2.2 m hm) _ _ _ _ _ _ b) _) (fun tc _ => ?_)
+    refine NoInt.bind (NoInt.foldlM _ _ (fun b m hm => SegTemp.get_noInt m (hn.2.2 m hm) _ _ _ _ _ _ b) _) (fun tn _ => ?_)
+    exact NoInt.pure _
   | 2, hsz =>
     simp only [Option.some.injEq] at hsz
     unfold linePaintAt
@@ -613,8 +724,8 @@ theorem linePaintAt_noInt (f : LineFeature R) (ctx : Ctx R) (q : Query R) (h : L
     exact NoInt.pure _
   | 3, hsz =>
     unfold linePaintAt
-    refine NoInt.bind (NoInt.foldlM _ _ (fun b m hm => LineGrains.get_noInt m (hc.2 m hm) _ _ _ b) _) (fun cc _ => ?_)
-    refine NoInt.bind (NoInt.foldlM _ _ (fun b m hm => LineGrains.get_noInt m (hn.2 m hm) _ _ _ b) _) (fun cn _ => ?_)
+    refine NoInt.bind (NoInt.foldlM _ _ (fun b m hm => LineGrains.get_noInt m (hc.2.1 m hm) _ _ _ b) _) (fun cc _ => ?_)
+    refine NoInt.bind (NoInt.foldlM _ _ (fun b m hm => LineGrains.get_noInt m (hn.2.1 m hm) _ _ _ b) _) (fun cn _ => ?_)
     exact NoInt.pure _
   | 4, hsz =>
     unfold linePaintAt
@@ -747,7 +858,7 @@ theorem Segment.prepare_noInt (s : Segment R) (hw : s.WellFormed) (isFault : Boo
   unfold Segment.prepare
   split
   · exact QNoInt.bind (QNoInt.liftE (NoInt.mapM' _ _ (fun m _ => m.prepare_noInt isFault q hq pd))) (fun _ => QNoInt.pure _)
-  · exact QNoInt.bind (QNoInt.mapM _ _ (fun m hm => m.prepare_noInt (hw.2 m hm) isFault pd p.n g0)) (fun _ => QNoInt.pure _)
+  · exact QNoInt.bind (QNoInt.mapM _ _ (fun m hm => m.prepare_noInt (hw.2.1 m hm) isFault pd p.n g0)) (fun _ => QNoInt.pure _)
   · exact QNoInt.pure _
 
 theorem Segment.prepare_wf (s : Segment R) (hw : s.WellFormed) (isFault : Bool) (q : Query R) (pd : PlaneDist R) (p : Req)
@@ -756,8 +867,8 @@ theorem Segment.prepare_wf (s : Segment R) (hw : s.WellFormed) (isFault : Bool) 
   split
   · refine Post.bind (P := fun comps => ∀ m ∈ comps, LineComp.WellFormed m) (Post.liftE (fun comps hc => ?_)) (fun comps hc => Post.pure ⟨hc, hw.2⟩)
     exact mapM_ok_forall _ _ _ (fun m hm m' hm' => m.prepare_wf (hw.1 m hm) isFault q pd m' hm') comps hc
-  · refine Post.bind (Post.mapM_mem _ LineGrains.WellFormed _ (fun m hm => m.prepare_wf (hw.2 m hm) isFault pd p.n g0))
-      (fun grains hg => Post.pure ⟨hw.1, hg⟩)
+  · refine Post.bind (Post.mapM_mem _ LineGrains.WellFormed _ (fun m hm => m.prepare_wf (hw.2.1 m hm) isFault pd p.n g0))
+      (fun grains hg => Post.pure ⟨hw.1, hg, hw.2.2⟩)
   · exact Post.pure hw
 
 theorem linePaintAtM_noInt (f : LineFeature R) (ctx : Ctx R) (q : Query R) (hq : NoInt (q.worldT ())) (h : LineHit R)
@@ -1175,10 +1286,14 @@ theorem Feature.applyTemp_noInt (f : Feature R) (hw : f.WellFormed) (ctx : Ctx R
     · exact NoInt.foldlM _ _ (fun b m hm => m.get_noInt (hw.2.1 m hm) ctx q b _ _ _) _
   | line l =>
     simp only [Feature.applyTemp, LineFeature.applyTemp]
-    refine NoInt.bind (l.covers_safe hw ctx q).noInt (fun o _ => ?_)
+    refine NoInt.bind (l.covers_safe hw ctx q).noInt (fun o ho => ?_)
     split
     · exact NoInt.pure _
-    · exact NoInt.pure _
+    · rename_i h
+      have hwf := (l.covers_safe hw ctx q).post ho h rfl
+      refine NoInt.bind (NoInt.foldlM _ _ (fun b m hm => SegTemp.get_noInt m (hwf.1.2.2 m hm) _ _ _ _ _ _ b) _) (fun _ _ => ?_)
+      refine NoInt.bind (NoInt.foldlM _ _ (fun b m hm => SegTemp.get_noInt m (hwf.2.2.2 m hm) _ _ _ _ _ _ b) _) (fun _ _ => ?_)
+      exact NoInt.pure _
 
 /-- the world temperature a query hands to the water-content models never indexes out of range either -/
 theorem World.temperaturePure_noInt (w : World R) (hw : w.WellFormed) (pt : P3 R) (depth : R) :
